@@ -14,6 +14,7 @@
    Not modelled: SIGKILL / crashes of a master (every exit runs halt()), pid reuse, daemonize()'s double fork under
    systemd socket activation, a worker of one master outliving it, the fork/SIGCHLD race on reexec_pid (known finding). *)
 From Coq Require Import List ZArith Bool Lia.
+From GV Require Import Gen.GenUpgrade.
 Import ListNotations.
 Local Open Scope Z_scope.
 
@@ -175,11 +176,14 @@ Definition step (c : cfg) (s : st) (e : event) : st :=
       if negb (m_alive m) then s else
       let m1 := set_m_workers m (cworkers c) in
       if pidconf c then
-        (* unlink pidfile; self.pidfile = Pidfile(self.cfg.pidfile); create(self.pid) - the configured name, always *)
+        (* unlink pidfile; self.pidfile = Pidfile(<name>); create(self.pid).  <name> is the configured name - on the
+           tree as it stands ALWAYS (reload_names_dot2 = false, read from the source by gen_upgrade.py), or with ".2"
+           while master_pid != 0 (the repair in fixes/reload-pidfile-child-master.diff) *)
+        let tgt := if reload_names_dot2 && negb (m_mpid m =? 0) then PDot2 else PMain in
         let s1 := pf_unlink s m in
-        match pf_create s1 (m_pid m) PMain with
-        | Some s2 => put s2 x (set_m_pf m1 PMain (pf_create_owns s1 (m_pid m) PMain))
-        | None => crash c (put s1 x (set_m_pf m1 PMain false)) x
+        match pf_create s1 (m_pid m) tgt with
+        | Some s2 => put s2 x (set_m_pf m1 tgt (pf_create_owns s1 (m_pid m) tgt))
+        | None => crash c (put s1 x (set_m_pf m1 tgt false)) x
         end
       else put s x m1
   | WINCH x =>
